@@ -17,7 +17,11 @@ Record case := {
   c_fault : string;            (* injected infrastructure fault ("" = none): which stage of the action must fail *)
   c_branch : string;           (* pint ci: current branch *)
   c_base : string;             (* pint ci: --base-branch *)
-  c_json_exists : bool         (* the --json file exists afterwards (possibly empty) *)
+  c_json_exists : bool;        (* the --json file exists afterwards (possibly empty) *)
+  c_exit_code : Z;             (* observed exit status *)
+  c_require_owner : bool;      (* --require-owner *)
+  c_unowned_broken_rule : bool (* class predicate of C05-require-owner-broken-rule-crash, computed by the harness from the
+                                  generated rule file: a readable file holds a rule with a rule-level parse error and no owner *)
 }.
 
 Fixpoint all_some {A} (l : list (option A)) : option (list A) :=
@@ -39,6 +43,7 @@ Definition lint_of (c : case) : lint_in :=
      li_paths := if is c "no-paths" then 0%nat else 1%nat;
      li_find_ok := negb (is c "missing-path");
      li_generate_ok := true; li_check_ok := true;
+     li_require_owner := c_require_owner c; li_unowned_broken_rule := c_unowned_broken_rule c;
      li_min_sev := c_min_sev c; li_fail_on := c_fail_on c;
      li_outputs_ok := negb (is c "json-unwritable" || is c "checkstyle-unwritable");
      li_submit_ok := true |}.
@@ -50,6 +55,7 @@ Definition ci_of (c : case) : ci_in :=
      ci_find_ok := true;
      ci_git_find_ok := negb (is c "bad-base");
      ci_generate_ok := true; ci_check_ok := true;
+     ci_require_owner := c_require_owner c; ci_unowned_broken_rule := c_unowned_broken_rule c;
      ci_outputs_ok := negb (is c "json-unwritable");
      ci_reporters_ok := negb (is c "github-no-token");
      ci_fail_on := c_fail_on c;
@@ -71,6 +77,7 @@ Definition check (c : case) : list string :=
   | None => ["malformed-case"]
   | Some o =>
       (if Bool.eqb (negb (Z.eqb (o_code o) 0)) (c_exit_nonzero c) then [] else ["exit-status"]) ++
+      (if Z.eqb (o_code o) (c_exit_code c) then [] else ["exit-code"]) ++
       (if Bool.eqb (o_submitted o) (c_json_present c) then [] else ["report-completeness"]) ++
       (if Bool.eqb (o_outputs_created o) (c_json_exists c) then [] else ["report-file-creation"])
   end.
